@@ -72,6 +72,38 @@ type Ctx struct {
 	cur    atomic.Int64
 	tick   atomic.Int64
 	caseMu sync.Mutex
+	seenMu sync.Mutex
+	seen   map[uint64]struct{}
+}
+
+// NewInput reports whether these bytes are seen for the first time by this
+// worker (64-bit FNV-1a hash); used to count DISTINCT inputs. The same bytes
+// generated in two different workers may be counted twice (stated in rules).
+func (c *Ctx) NewInput(b []byte) bool {
+	h := uint64(14695981039346656037)
+	for _, x := range b {
+		h ^= uint64(x)
+		h *= 1099511628211
+	}
+	c.seenMu.Lock()
+	defer c.seenMu.Unlock()
+	if c.seen == nil {
+		c.seen = map[uint64]struct{}{}
+	}
+	if _, ok := c.seen[h]; ok {
+		return false
+	}
+	c.seen[h] = struct{}{}
+	return true
+}
+
+// CountDistinct bumps distinct_nontrivial when the input is new to this worker.
+func (c *Ctx) CountDistinct(b []byte) {
+	if c.NewInput(b) {
+		c.R.Count("distinct_nontrivial", 1)
+	} else {
+		c.R.Count("duplicate_inputs", 1)
+	}
 }
 
 func (c *Ctx) Thorough() bool { return c.Tier == "thorough" }
@@ -411,6 +443,9 @@ func runDriver(ch *Check, c *Ctx) int {
 	}
 	if _, ok := cov["samples"]; !ok {
 		cov["samples"] = merged.Samples
+	}
+	if l, ok := cov["samples"].([]any); ok && len(l) == 0 {
+		gates = append(gates, "the run recorded no sample case for the evidence")
 	}
 	cov["counters"] = merged.Counters
 	setSizes := map[string]int{}
